@@ -15,6 +15,7 @@ import (
 	"github.com/youchainhq/go-youchain/core/types"
 	"github.com/youchainhq/go-youchain/crypto"
 	"github.com/youchainhq/go-youchain/params"
+	"github.com/youchainhq/go-youchain/rlp"
 	"github.com/youchainhq/go-youchain/youdb"
 )
 
@@ -192,6 +193,23 @@ func (g *goSide) apply(f []string) (resp string) {
 		nv.Stake = big10(f[5])
 		nv.CommissionRate = uint16(atoi(f[6]))
 		st.UpdateValidator(nv, cur)
+	case "la":
+		// UpdateLastActive the two ways the staking module does it, both ending in UpdateValidator(new, old)
+		cur := st.GetValidatorByMainAddr(valAddr(atoi(f[1])))
+		if cur == nil {
+			return "skip"
+		}
+		if len(f) > 3 && f[3] == "A" {
+			// endblock.go: old := val.PartialCopy(); val.UpdateLastActive(n); UpdateValidator(val, old)
+			old := cur.PartialCopy()
+			cur.UpdateLastActive(u64(f[2]))
+			st.UpdateValidator(cur, old)
+		} else {
+			// take_effect_handler.go: newVal := old.PartialCopy(); newVal.UpdateLastActive(n); UpdateValidator(newVal, old)
+			nv := cur.PartialCopy()
+			nv.UpdateLastActive(u64(f[2]))
+			st.UpdateValidator(nv, cur)
+		}
 	case "vr":
 		if st.GetValidatorByMainAddr(valAddr(atoi(f[1]))) == nil {
 			return "skip"
@@ -285,8 +303,14 @@ func showVal(id int, v *state.Validator, deleted bool) string {
 		}
 		ds = append(ds, fmt.Sprintf("%s.%s.%s", idOfAddr(d.Delegator), d.Stake, d.Token))
 	}
-	return fmt.Sprintf("%d:%d,%d,%s,%s,%s,%s,%d,%s,[%s]", id, v.Role, v.Status, v.Token, v.Stake, v.SelfToken, v.SelfStake,
-		v.CommissionRate, b01(deleted), strings.Join(ds, ";"))
+	// Ext BY VALUE: version, the raw Data bytes, and what LastActive() answers
+	data := "-"
+	if len(v.Ext.Data) > 0 {
+		data = common.Bytes2Hex(v.Ext.Data)
+	}
+	ext := fmt.Sprintf("x%d.%s.%d", v.Ext.Version, data, v.LastActive())
+	return fmt.Sprintf("%d:%d,%d,%s,%s,%s,%s,%d,%s,%s,[%s]", id, v.Role, v.Status, v.Token, v.Stake, v.SelfToken, v.SelfStake,
+		v.CommissionRate, ext, b01(deleted), strings.Join(ds, ";"))
 }
 
 func showStat(s *state.ValidatorsStat) string {
@@ -408,6 +432,36 @@ func (g *goSide) delegationsView() (out string) {
 			l = append(l, fmt.Sprintf("%s.%s.%s", idOfAddr(d.Validator), d.Stake, d.Token))
 		}
 		parts = append(parts, fmt.Sprintf("%d:[%s]", id, strings.Join(l, ";")))
+	}
+	return strings.Join(parts, " ")
+}
+
+// validatorEncView: for every live validator record the digest of its RLP encoding, and LastActive() of the record
+// decoded back from those bytes (the two representations of Ext must agree, and must be restored by a revert).
+func (g *goSide) validatorEncView() (out string) {
+	defer func() {
+		if r := recover(); r != nil {
+			out = fmt.Sprintf("encoding-panic: %v", r)
+		}
+	}()
+	var parts []string
+	for _, id := range valIDs {
+		v, _ := g.st.VerifC09RawValidator(valAddr(id))
+		if v == nil {
+			parts = append(parts, fmt.Sprintf("%d:-", id))
+			continue
+		}
+		enc, err := rlp.EncodeToBytes(v)
+		if err != nil {
+			parts = append(parts, fmt.Sprintf("%d:err(%v)", id, err))
+			continue
+		}
+		var back state.Validator
+		la := "undecodable"
+		if err := rlp.DecodeBytes(enc, &back); err == nil {
+			la = strconv.FormatUint(back.LastActive(), 10)
+		}
+		parts = append(parts, fmt.Sprintf("%d:%x.%s", id, crypto.Keccak256(enc)[:8], la))
 	}
 	return strings.Join(parts, " ")
 }
